@@ -720,6 +720,12 @@ def run(ctx):
         "phantom selection and port derivation are inputs of the ingest model (well-formedness: 4/16-byte address, port < 65536; C14/C01)",
         "GeoIP lookups are taken to succeed (empty database in the driver); a failing lookup only removes registrations",
         "redis delivers what PUBLISH was given (RESP stand-in); detector time is an input",
+        "client.Publish is modelled as go-redis runs it (baseClient.process: MaxRetries+1 attempts, EOF / connection reset retryable, error replies "
+        "not); the attempt count and what is delivered are compared with the real client built by the station's constructor on every run (CPublish)",
+        "the station's registration table over time is coq/C08's model (tied to the code by C08's own check and by this check's world lane); the station "
+        "and the detector read one clock and a message is processed at the clock reading of its publication (no delivery delay)",
+        "world lane, timed histories: the Go runtime's clock is moved by the script (build tag faketime, runtime.faketime through go:linkname, "
+        "-ldflags=-checklinkname=0), the redis client of that build is the driver's (in-memory connections)",
     ]
     ctx.cov["trusted_base"] = [
         "Coq 8.16.1 kernel (coqc; coqchk in the thorough tier); vm_compute for evaluating the model on cases; no native_compute",
@@ -728,11 +734,14 @@ def run(ctx):
         "From<&StationToDetector>, pubsub_handle_s2d, pubsub_add_or_update_session, pubsub_clear (Rust), tied to both by the correspondence run",
         "harness/rust/c10: cut_sessions.py (brace matching) + harness.rs (std-only stand-ins for protobuf getters, pnet constants, debug!, clock); "
         "harness/inpkg/c10 Go driver with RESP stand-in; this module's generators and emitters",
-        "rustc 1.95 std (IpAddr::from_str, HashMap), Go 1.23 net.IP.String, google.golang.org/protobuf",
+        "rustc 1.95 std (IpAddr::from_str, HashMap), Go 1.23 net.IP.String, google.golang.org/protobuf, go-redis v8.11.5 (the client under test)",
+        "coq/C08 (Model, Invariant, History, Counters: the registration table and its refinement theorems) for the theorems of C10/PropsWorld.v; "
+        "driver/props/c10_world.py (history generators, oracle, emitters), harness/inpkg/c10/world_driver_test.go",
     ]
     ctx.cov["rule"] = ("a case is one station call (sendToDetector with arbitrary registration fields / register+markActive / "
                        "clear / one C2SWrapper through parseRegMessage with its announcements) or one message through the real Rust "
-                       "handler from three table states; non-trivial = hash-distinct, counted per (kind, outcome class)")
+                       "handler from three table states, or one world history (real registry + real publish path + real SessionTracker, every step compared) / "
+                       "one publication under a fault script; non-trivial = hash-distinct, counted per (kind, outcome class)")
     # the theorems about sequences (PropsWorld.v) are stated over coq/C08's model of the station's registration table
     ctx.extra_dirs += ["C08"]
     rc, out = ctx.coq_make(["C08/Counters.vo"])
